@@ -20,8 +20,8 @@ from collections import deque
 from graphlib import TopologicalSorter
 from typing import Any, Dict, List
 
-MSG_DEFAULT = {"kind": "valid", "task": "ta0", "body": "wait", "outcome": "ret", "timeout": 0, "savefail": False, "ackfail": False, "tid": 0, "slowcancel": False, "slow": False, "late": False}
-MW_DEFAULT = {"pre": "", "onerr": "", "post": "", "postsave": "", "replace": False}
+MSG_DEFAULT = {"kind": "valid", "task": "ta0", "body": "wait", "outcome": "ret", "timeout": 0, "savefail": False, "ackfail": False, "tid": 0, "slowcancel": False, "slow": False, "late": False, "afterreg": False}
+MW_DEFAULT = {"pre": "", "onerr": "", "post": "", "postsave": "", "replace": False, "late": False}
 DEP_DEFAULT = {"style": "gen", "cached": True, "parent": 0, "suspend": False, "fail": False}
 
 
